@@ -1,7 +1,9 @@
 (** The decoding state of the queue reader: a forward-looking invariant per
-    record (what is queued, followed by what the unread bits and the bytes
-    still to come decode to, is the rest of the column) and its lifting to
-    the parallel lists of the model. *)
+    record of non-zero width (what is queued, followed by what the unread bits
+    and the bytes still to come decode to, is the rest of the column) and its
+    lifting to the parallel lists of the model.  Records of zero width are not
+    queued: their values are synthesised when a point is popped, and their
+    queues are not constrained. *)
 From E57 Require Import Base.Prelude Model.BsRead Model.Record Model.Prog Model.QueueReader
   Spec.BitSpec Spec.FormatSpec.
 From E57 Require Import Proofs.BitLemmas Proofs.BitWidthProofs Proofs.BitReadProofs
@@ -77,7 +79,8 @@ Qed.
 (** * The invariant of one record
 
     [sh] says whether the unread bits are fewer than one value (true between
-    packets, false after the chunk of a packet has been appended). *)
+    packets, false after the chunk of a packet has been appended).  Nothing is
+    said about the queue of a record of zero width. *)
 Definition rec_inv (sh : bool) (k : nat) (t : dtype) (col : list rvalue) (fut : list N)
   (s : bsr) (q : list rvalue) : Prop :=
   type_ok t = true /\ Forall (fun v => in_range t v = true) col /\
@@ -86,14 +89,14 @@ Definition rec_inv (sh : bool) (k : nat) (t : dtype) (col : list rvalue) (fut : 
       (sh = true -> (length R < wof t)%nat) /\
       exists extra, Forall value_i64 extra /\
         q ++ dec t (R ++ bits_of_bytes fut) = skipn k (col ++ extra)
-    else Forall (fun v => v = zval t) q.
+    else True.
 
 Lemma rec_inv_init t col : type_ok t = true -> Forall (fun v => in_range t v = true) col ->
   rec_inv true 0 t col (spec_stream_bytes t col) bsr_new [].
 Proof.
   intros Ht Hcol. split; [exact Ht|]. split; [exact Hcol|].
   exists []. split; [apply bsr_new_holds|].
-  destruct (sized t) eqn:Hs; [|constructor].
+  destruct (sized t) eqn:Hs; [|exact I].
   split; [intros _; cbn [length]; apply sized_wof; exact Hs|].
   destruct (full_decode t col Ht Hs Hcol) as (extra & He & Hd).
   exists extra. split; [exact He|]. cbn [app skipn]. exact Hd.
@@ -144,13 +147,12 @@ Proof.
     exists extra. split; [exact He|]. rewrite <- app_assoc. exact Heq.
 Qed.
 
-Lemma rec_fill sh k t col f s q m : rec_inv sh k t col f s q -> sized t = false ->
-  rec_inv true k t col f s (q ++ repeat (zval t) m).
+(** A record of zero width keeps its stream and its queue. *)
+Lemma rec_skip sh k t col f s q : rec_inv sh k t col f s q -> sized t = false ->
+  rec_inv true k t col f s q.
 Proof.
-  intros (Ht & Hcol & R & Hh & Hi) Hs. rewrite Hs in Hi.
-  split; [exact Ht|]. split; [exact Hcol|]. exists R. split; [exact Hh|]. rewrite Hs.
-  apply Forall_app. split; [exact Hi|]. apply Forall_forall. intros x Hx.
-  apply repeat_spec in Hx. exact Hx.
+  intros (Ht & Hcol & R & Hh & Hi) Hs.
+  split; [exact Ht|]. split; [exact Hcol|]. exists R. split; [exact Hh|]. rewrite Hs. exact I.
 Qed.
 
 Lemma skipn_cons_nth {A} (d : A) : forall k l, (k < length l)%nat ->
@@ -161,20 +163,28 @@ Proof.
   - cbn [skipn nth]. rewrite IHk by lia. reflexivity.
 Qed.
 
-Lemma rec_pop sh k t col f s v q d : rec_inv sh k t col f s (v :: q) -> (k < length col)%nat ->
+(** Popping a record of non-zero width: the front of its queue is the next value of the column. *)
+Lemma rec_pop sh k t col f s v q d : rec_inv sh k t col f s (v :: q) -> sized t = true ->
+  (k < length col)%nat ->
   v = nth k col d /\ rec_inv sh (S k) t col f s q.
 Proof.
-  intros (Ht & Hcol & R & Hh & Hi) Hk.
-  destruct (sized t) eqn:Hs.
-  - destruct Hi as (Hsh & extra & He & Heq).
-    rewrite (skipn_cons_nth d k (col ++ extra)) in Heq by (rewrite app_length; lia).
-    rewrite app_nth1 in Heq by exact Hk. cbn [app] in Heq. injection Heq as Hv Hq.
-    split; [exact Hv|]. split; [exact Ht|]. split; [exact Hcol|]. exists R. split; [exact Hh|].
-    rewrite Hs. split; [exact Hsh|]. exists extra. split; [exact He|exact Hq].
-  - inversion Hi as [|? ? Hv Hq]; subst. split.
-    + rewrite Forall_forall in Hcol. symmetry. apply (zero_width_value t _ Ht Hs).
-      apply Hcol. apply nth_In. exact Hk.
-    + split; [exact Ht|]. split; [exact Hcol|]. exists R. split; [exact Hh|]. rewrite Hs. exact Hq.
+  intros (Ht & Hcol & R & Hh & Hi) Hs Hk. rewrite Hs in Hi.
+  destruct Hi as (Hsh & extra & He & Heq).
+  rewrite (skipn_cons_nth d k (col ++ extra)) in Heq by (rewrite app_length; lia).
+  rewrite app_nth1 in Heq by exact Hk. cbn [app] in Heq. injection Heq as Hv Hq.
+  split; [exact Hv|]. split; [exact Ht|]. split; [exact Hcol|]. exists R. split; [exact Hh|].
+  rewrite Hs. split; [exact Hsh|]. exists extra. split; [exact He|exact Hq].
+Qed.
+
+(** Popping a record of zero width: the synthesised minimum is the next value of the column. *)
+Lemma rec_pop_zero sh k t col f s q d : rec_inv sh k t col f s q -> sized t = false ->
+  (k < length col)%nat ->
+  zval t = nth k col d /\ rec_inv sh (S k) t col f s q.
+Proof.
+  intros (Ht & Hcol & R & Hh & Hi) Hs Hk. split.
+  - rewrite Forall_forall in Hcol. symmetry. apply (zero_width_value t _ Ht Hs).
+    apply Hcol. apply nth_In. exact Hk.
+  - split; [exact Ht|]. split; [exact Hcol|]. exists R. split; [exact Hh|]. rewrite Hs. exact I.
 Qed.
 
 Lemma rec_progress k t col s : rec_inv true k t col [] s [] -> sized t = true ->
@@ -187,24 +197,29 @@ Proof.
   rewrite skipn_length, app_length in Hl. lia.
 Qed.
 
+(** * The model's test for zero width against the specification's *)
+
+Lemma bit_size_zero t : type_ok t = true -> (bit_size t =? 0) = negb (sized t).
+Proof. intros Ht. rewrite (bit_size_spec t Ht). unfold sized. lia. Qed.
+
+Lemma has_sized_sized : forall ts, Forall (fun t => type_ok t = true) ts ->
+  has_sized ts = existsb sized ts.
+Proof.
+  unfold has_sized. induction 1 as [|t ts Ht HF IH]; [reflexivity|].
+  cbn [existsb]. rewrite IH, (bit_size_zero t Ht), Bool.negb_involutive. reflexivity.
+Qed.
+
 (** * The model's per-record parsing step *)
 
-Definition one_rec (t : dtype) (s : bsr) (q : list rvalue) (mqs : N) : res (bsr * list rvalue) :=
-  match t with
-  | TSingle | TDouble => res_map (fun '(s', vs) => (s', q ++ vs)) (unpack_type t s)
-  | TScaled mn mx =>
-      if bit_size t =? 0 then Ok (s, q ++ repeat (VScaled mn) (N.to_nat (mqs - len q)))
-      else res_map (fun '(s', vs) => (s', q ++ vs)) (unpack_type t s)
-  | TInteger mn mx =>
-      if bit_size t =? 0 then Ok (s, q ++ repeat (VInteger mn) (N.to_nat (mqs - len q)))
-      else res_map (fun '(s', vs) => (s', q ++ vs)) (unpack_type t s)
-  end.
+Definition one_rec (t : dtype) (s : bsr) (q : list rvalue) : res (bsr * list rvalue) :=
+  if bit_size t =? 0 then Ok (s, q)
+  else res_map (fun '(s', vs) => (s', q ++ vs)) (unpack_type t s).
 
-Lemma parse_streams_cons t ts s ss q qs m :
-  parse_streams (t :: ts) (s :: ss) (q :: qs) m =
-  match one_rec t s q m with
+Lemma parse_streams_cons t ts s ss q qs :
+  parse_streams (t :: ts) (s :: ss) (q :: qs) =
+  match one_rec t s q with
   | Ok (s', q') =>
-      match parse_streams ts ss qs m with
+      match parse_streams ts ss qs with
       | Ok (ss', qs') => Ok (s' :: ss', q' :: qs')
       | Err k => Err k
       | Panic => Panic
@@ -214,36 +229,56 @@ Lemma parse_streams_cons t ts s ss q qs m :
   end.
 Proof. reflexivity. Qed.
 
-Lemma one_rec_sized t s q m s2 vs : type_ok t = true -> sized t = true ->
-  unpack_type t s = Ok (s2, vs) -> one_rec t s q m = Ok (s2, q ++ vs).
+Lemma one_rec_sized t s q s2 vs : type_ok t = true -> sized t = true ->
+  unpack_type t s = Ok (s2, vs) -> one_rec t s q = Ok (s2, q ++ vs).
 Proof.
-  intros Ht Hs Hu. pose proof (bit_size_spec t Ht) as Hb. pose proof (sized_pos t Hs) as Hp.
-  unfold one_rec. destruct t as [| |mn mx|mn mx]; try (rewrite Hu; reflexivity).
-  - destruct (bit_size (TScaled mn mx) =? 0) eqn:E; [lia|]. rewrite Hu. reflexivity.
-  - destruct (bit_size (TInteger mn mx) =? 0) eqn:E; [lia|]. rewrite Hu. reflexivity.
+  intros Ht Hs Hu. unfold one_rec. rewrite (bit_size_zero t Ht), Hs. cbn [negb].
+  rewrite Hu. reflexivity.
 Qed.
 
-Lemma one_rec_zero t s q m : type_ok t = true -> sized t = false ->
-  one_rec t s q m = Ok (s, q ++ repeat (zval t) (N.to_nat (m - len q))).
+Lemma one_rec_zero t s q : type_ok t = true -> sized t = false -> one_rec t s q = Ok (s, q).
 Proof.
-  intros Ht Hs. pose proof (bit_size_spec t Ht) as Hb. unfold sized in Hs.
-  unfold one_rec. destruct t as [| |mn mx|mn mx]; cbn [spec_bit_size] in Hs, Hb; try lia.
-  - destruct (bit_size (TScaled mn mx) =? 0) eqn:E; [reflexivity|lia].
-  - destruct (bit_size (TInteger mn mx) =? 0) eqn:E; [reflexivity|lia].
+  intros Ht Hs. unfold one_rec. rewrite (bit_size_zero t Ht), Hs. reflexivity.
 Qed.
 
-Lemma min_queue_size_cons t ts s ss q qs acc :
-  min_queue_size (t :: ts) (s :: ss) (q :: qs) acc =
-  if bit_size t =? 0 then min_queue_size ts ss qs acc else
-  match bsr_available s with
-  | Ok av =>
-      let items := av / bit_size t + len q in
-      min_queue_size ts ss qs
-        (match acc with None => Some items | Some m => Some (if items <? m then items else m) end)
+(** * The model's per-record popping step *)
+
+Definition pop_one (t : dtype) (q : list rvalue) : res (rvalue * list rvalue) :=
+  match t, bit_size t =? 0 with
+  | TInteger mn _, true => Ok (VInteger mn, q)
+  | TScaled mn _, true => Ok (VScaled mn, q)
+  | _, _ => match q with
+            | [] => Err EInternal
+            | v :: q' => Ok (v, q')
+            end
+  end.
+
+Lemma pop_fronts_cons t ts q qs :
+  pop_fronts (t :: ts) (q :: qs) =
+  match pop_one t q with
+  | Ok (v, q') =>
+      match pop_fronts ts qs with
+      | Ok (vs, r') => Ok (v :: vs, q' :: r')
+      | Err k => Err k
+      | Panic => Panic
+      end
   | Err k => Err k
   | Panic => Panic
   end.
 Proof. reflexivity. Qed.
+
+Lemma pop_one_sized t v q : type_ok t = true -> sized t = true -> pop_one t (v :: q) = Ok (v, q).
+Proof.
+  intros Ht Hs. pose proof (bit_size_zero t Ht) as Hb. rewrite Hs in Hb. cbn [negb] in Hb.
+  unfold pop_one. destruct t; try reflexivity; rewrite Hb; reflexivity.
+Qed.
+
+Lemma pop_one_zero t q : type_ok t = true -> sized t = false -> pop_one t q = Ok (zval t, q).
+Proof.
+  intros Ht Hs. pose proof (bit_size_zero t Ht) as Hb. rewrite Hs in Hb. cbn [negb] in Hb.
+  unfold pop_one. destruct t as [| |mn mx|mn mx]; try (rewrite Hb; reflexivity);
+    unfold sized in Hs; cbn [spec_bit_size] in Hs; lia.
+Qed.
 
 (** * The invariant over the parallel lists *)
 
@@ -257,6 +292,10 @@ Inductive inv5 (sh : bool) (k : nat) :
 Lemma inv5_length sh k ts cs fs ss qs : inv5 sh k ts cs fs ss qs ->
   length cs = length ts /\ length fs = length ts /\ length ss = length ts /\ length qs = length ts.
 Proof. induction 1; cbn [length]; lia. Qed.
+
+Lemma inv5_type_ok sh k ts cs fs ss qs : inv5 sh k ts cs fs ss qs ->
+  Forall (fun t => type_ok t = true) ts.
+Proof. induction 1 as [|t c f s q ts cs fs ss qs (Ht & _) Hi IH]; constructor; assumption. Qed.
 
 Lemma inv5_init : forall ts cs fs,
   Forall3 (fun t c f => type_ok t = true /\ Forall (fun v => in_range t v = true) c /\
@@ -283,173 +322,118 @@ Proof.
     exists (s1 :: ss1). split; constructor; assumption.
 Qed.
 
-(** which queue lengths the minimum ranges over *)
+(** Parsing the streams after the chunks of a packet have been appended:
+    every record of non-zero width decodes all whole values of its unread bits
+    into its queue, the records of zero width are skipped. *)
+Lemma inv5_parse k : forall ts cs fs ss1 qs, inv5 false k ts cs fs ss1 qs ->
+  exists ss2 qs2, parse_streams ts ss1 qs = Ok (ss2, qs2) /\ inv5 true k ts cs fs ss2 qs2.
+Proof.
+  induction 1 as [|t c f s q ts cs fs ss qs Hr Hi IH].
+  - exists [], []. split; [reflexivity|constructor].
+  - pose proof Hr as (Ht & _). destruct IH as (ss2 & qs2 & Hp2 & Hi2).
+    rewrite parse_streams_cons. destruct (sized t) eqn:Hs.
+    + destruct (rec_unpack _ _ _ _ _ _ Hr Hs) as (s2 & vs & av & _ & _ & Hu & Hr2).
+      exists (s2 :: ss2), ((q ++ vs) :: qs2).
+      rewrite (one_rec_sized t s q s2 vs Ht Hs Hu), Hp2.
+      split; [reflexivity|constructor; assumption].
+    + exists (s :: ss2), (q :: qs2). rewrite (one_rec_zero t s q Ht Hs), Hp2.
+      split; [reflexivity|]. constructor; [apply (rec_skip false); assumption|exact Hi2].
+Qed.
+
+(** * [qr_available]: the minimum over the queues of the records of non-zero width *)
+
 Definition sized_ge (a : N) (ts : list dtype) (qs : list (list rvalue)) : Prop :=
   Forall2 (fun t q => sized t = true -> a <= len q) ts qs.
-Definition zero_ge (m : N) (ts : list dtype) (qs : list (list rvalue)) : Prop :=
-  Forall2 (fun t q => sized t = false -> m <= len q) ts qs.
 Fixpoint attained (m : N) (ts : list dtype) (qs : list (list rvalue)) : Prop :=
   match ts, qs with
   | t :: ts', q :: qs' => (sized t = true /\ len q = m) \/ attained m ts' qs'
   | _, _ => False
   end.
 
-Lemma inv5_parse k : forall ts cs fs ss1 qs, inv5 false k ts cs fs ss1 qs -> forall acc,
-  exists acc', min_queue_size ts ss1 qs acc = Ok acc' /\
-    (acc' = None -> acc = None /\ Forall (fun t => sized t = false) ts) /\
-    (forall a, acc = Some a -> exists a', acc' = Some a' /\ a' <= a) /\
-    forall m, exists ss2 qs2, parse_streams ts ss1 qs m = Ok (ss2, qs2) /\
-      inv5 true k ts cs fs ss2 qs2 /\ zero_ge m ts qs2 /\
-      forall a', acc' = Some a' -> sized_ge a' ts qs2 /\ (acc = Some a' \/ attained a' ts qs2).
+Lemma Forall2_impl_ {A B} (R1 R2 : A -> B -> Prop) : (forall a b, R1 a b -> R2 a b) ->
+  forall la lb, Forall2 R1 la lb -> Forall2 R2 la lb.
+Proof. intros H la lb HF. induction HF; constructor; auto. Qed.
+
+Lemma sized_ge_le a b ts qs : b <= a -> sized_ge a ts qs -> sized_ge b ts qs.
 Proof.
-  induction 1 as [|t c f s q ts cs fs ss qs Hr Hi IH]; intros acc.
-  - exists acc. split; [reflexivity|]. split; [intros ->; split; [reflexivity|constructor]|].
-    split; [intros a ->; exists a; split; [reflexivity|lia]|].
-    intros m. exists [], []. split; [reflexivity|]. split; [constructor|]. split; [constructor|].
-    intros a' ->. split; [constructor|left; reflexivity].
-  - pose proof Hr as (Ht & _). pose proof (bit_size_spec t Ht) as Hb.
-    rewrite min_queue_size_cons. destruct (sized t) eqn:Hs.
-    + pose proof (sized_pos t Hs) as Hp.
-      destruct (bit_size t =? 0) eqn:E0; [lia|].
-      destruct (rec_unpack _ _ _ _ _ _ Hr Hs) as (s2 & vs & av & Hav & Hit & Hu & Hr2).
-      rewrite Hav. cbv zeta. rewrite Hit.
-      replace (len vs + len q) with (len (q ++ vs)) by (rewrite qlen_app; lia).
-      set (it := len (q ++ vs)).
-      set (acc1 := match acc with None => Some it | Some m => Some (if it <? m then it else m) end).
-      destruct (IH acc1) as (acc' & Hm & Hnone & Hsome & Hparse).
-      assert (Hacc1 : exists x, acc1 = Some x /\ x <= it /\ (x = it \/ acc = Some x) /\
-                                forall a, acc = Some a -> x <= a).
-      { subst acc1. destruct acc as [a0|].
-        - destruct (it <? a0) eqn:E.
-          + exists it. split; [reflexivity|]. split; [lia|]. split; [left; reflexivity|].
-            intros a [= <-]. lia.
-          + exists a0. split; [reflexivity|]. split; [lia|]. split; [right; reflexivity|].
-            intros a [= <-]. lia.
-        - exists it. split; [reflexivity|]. split; [lia|]. split; [left; reflexivity|].
-          intros a [=]. }
-      destruct Hacc1 as (x & Hx & Hxit & Hxor & Hxle).
-      destruct (Hsome x Hx) as (a1 & Ha1 & Ha1x).
-      exists acc'. split; [exact Hm|]. split; [|split].
-      * intros Hn. destruct (Hnone Hn) as [Hn1 _]. congruence.
-      * intros a Ha. exists a1. split; [exact Ha1|]. specialize (Hxle a Ha). lia.
-      * intros m. destruct (Hparse m) as (ss2 & qs2 & Hp2 & Hi2 & Hz2 & Hatt).
-        exists (s2 :: ss2), ((q ++ vs) :: qs2). split; [|split; [|split]].
-        -- rewrite parse_streams_cons, (one_rec_sized t s q m s2 vs Ht Hs Hu), Hp2. reflexivity.
-        -- constructor; assumption.
-        -- constructor; [intros Hc; congruence|exact Hz2].
-        -- intros a' Ha'. rewrite Ha1 in Ha'. injection Ha' as <-.
-           destruct (Hatt a1 Ha1) as [Hsg Hor]. split.
-           ++ constructor; [intros _; fold it; lia|exact Hsg].
-           ++ cbn [attained]. destruct Hor as [Hor|Hor]; [|right; right; exact Hor].
-              rewrite Hx in Hor. injection Hor as <-.
-              destruct Hxor as [->|Hxor]; [right; left; split; [exact Hs|reflexivity]|left; exact Hxor].
-    + assert (E0 : (bit_size t =? 0) = true) by (unfold sized in Hs; lia). rewrite E0.
-      destruct (IH acc) as (acc' & Hm & Hnone & Hsome & Hparse).
-      exists acc'. split; [exact Hm|]. split; [|split].
-      * intros Hn. destruct (Hnone Hn) as [Hn1 Hn2]. split; [exact Hn1|constructor; assumption].
-      * exact Hsome.
-      * intros m. destruct (Hparse m) as (ss2 & qs2 & Hp2 & Hi2 & Hz2 & Hatt).
-        exists (s :: ss2), ((q ++ repeat (zval t) (N.to_nat (m - len q))) :: qs2).
-        split; [|split; [|split]].
-        -- rewrite parse_streams_cons, (one_rec_zero t s q m Ht Hs), Hp2. reflexivity.
-        -- constructor; [apply (rec_fill false); assumption|exact Hi2].
-        -- constructor; [|exact Hz2]. intros _. rewrite qlen_app, qlen_repeat. lia.
-        -- intros a' Ha'. destruct (Hatt a' Ha') as [Hsg Hor]. split.
-           ++ constructor; [intros Hc; congruence|exact Hsg].
-           ++ cbn [attained]. destruct Hor as [Hor|Hor]; [left; exact Hor|right; right; exact Hor].
+  intros Hab. unfold sized_ge. apply Forall2_impl_. intros t q H Hs. specialize (H Hs). lia.
 Qed.
 
-(** * [qr_available] *)
-
-Definition fmin (r : list (list rvalue)) (a : N) : N := fold_left (fun m y => N.min m (len y)) r a.
-
-Lemma fmin_le : forall r a, fmin r a <= a /\ forall y, In y r -> fmin r a <= len y.
+Lemma avail_sized_spec : forall ts qs acc,
+  Forall (fun t => type_ok t = true) ts -> length qs = length ts ->
+  match avail_sized ts qs acc with
+  | None => acc = None /\ Forall (fun t => sized t = false) ts
+  | Some m => sized_ge m ts qs /\ (forall a, acc = Some a -> m <= a) /\
+              (acc = Some m \/ attained m ts qs)
+  end.
 Proof.
-  induction r as [|x r IH]; intros a; cbn [fmin fold_left].
-  - split; [lia|intros y []].
-  - fold (fmin r (N.min a (len x))). destruct (IH (N.min a (len x))) as [H1 H2].
-    split; [lia|]. intros y [<-|Hy]; [lia|apply H2; exact Hy].
+  induction ts as [|t ts IH]; intros qs acc Hok Hlen;
+    destruct qs as [|q qs]; cbn [length] in Hlen; try discriminate.
+  - cbn [avail_sized]. destruct acc as [a|].
+    + split; [constructor|]. split; [intros a' [= <-]; lia|left; reflexivity].
+    + split; [reflexivity|constructor].
+  - inversion Hok as [|? ? Ht Hok']; subst. injection Hlen as Hlen.
+    cbn [avail_sized]. rewrite (bit_size_zero t Ht). destruct (sized t) eqn:Hs; cbn [negb].
+    + set (acc1 := Some (match acc with None => len q | Some m => N.min m (len q) end)).
+      specialize (IH qs acc1 Hok' Hlen).
+      destruct (avail_sized ts qs acc1) as [m|]; [|destruct IH as [IH _]; discriminate].
+      destruct IH as (Hge & Hle & Hor).
+      assert (Hx : m <= len q /\ (forall a, acc = Some a -> m <= a)).
+      { specialize (Hle _ eq_refl). destruct acc as [a0|]; split; try lia.
+        - intros a [= <-]. lia.
+        - intros a [=]. }
+      destruct Hx as [Hmq Hma].
+      split; [constructor; [intros _; exact Hmq|exact Hge]|]. split; [exact Hma|].
+      cbn [attained]. destruct Hor as [Hor|Hor]; [|right; right; exact Hor].
+      subst acc1. injection Hor as Hor. destruct acc as [a0|].
+      * destruct (N.le_ge_cases a0 (len q)) as [Hc|Hc].
+        -- left. f_equal. lia.
+        -- right. left. split; [exact Hs|lia].
+      * right. left. split; [exact Hs|lia].
+    + specialize (IH qs acc Hok' Hlen).
+      destruct (avail_sized ts qs acc) as [m|].
+      * destruct IH as (Hge & Hle & Hor).
+        split; [constructor; [intros Hc; congruence|exact Hge]|]. split; [exact Hle|].
+        cbn [attained]. destruct Hor as [Hor|Hor]; [left; exact Hor|right; right; exact Hor].
+      * destruct IH as [Hacc HF]. split; [exact Hacc|constructor; assumption].
 Qed.
 
-Lemma fmin_ge m : forall r a, m <= a -> (forall y, In y r -> m <= len y) -> m <= fmin r a.
+(** With a record of non-zero width, [qr_available] is a lower bound of the
+    queues of such records, attained by one of them. *)
+Lemma avail_spec ts ss qs :
+  Forall (fun t => type_ok t = true) ts -> length qs = length ts -> existsb sized ts = true ->
+  sized_ge (qr_available (mkQr ts ss qs)) ts qs /\ attained (qr_available (mkQr ts ss qs)) ts qs.
 Proof.
-  induction r as [|x r IH]; intros a Ha Hr; cbn [fmin fold_left]; [exact Ha|].
-  fold (fmin r (N.min a (len x))). apply IH.
-  - specialize (Hr x (or_introl eq_refl)). lia.
-  - intros y Hy. apply Hr. right. exact Hy.
-Qed.
-
-Lemma avail_le q y : In y (q_queues q) -> qr_available q <= len y.
-Proof.
-  unfold qr_available. destruct (q_queues q) as [|x r]; [intros []|].
-  fold (fmin r (len x)). destruct (fmin_le r (len x)) as [H1 H2].
-  intros [<-|Hy]; [exact H1|apply H2; exact Hy].
-Qed.
-
-Lemma avail_ge q m : q_queues q <> [] -> (forall y, In y (q_queues q) -> m <= len y) ->
-  m <= qr_available q.
-Proof.
-  unfold qr_available. destruct (q_queues q) as [|x r]; [congruence|]. intros _ H.
-  fold (fmin r (len x)). apply fmin_ge.
-  - apply H. left. reflexivity.
-  - intros y Hy. apply H. right. exact Hy.
-Qed.
-
-Lemma attained_In m : forall ts qs, attained m ts qs -> exists q, In q qs /\ len q = m.
-Proof.
-  induction ts as [|t ts IH]; intros qs H; [destruct H|].
-  destruct qs as [|q qs]; [destruct H|]. cbn [attained] in H.
-  destruct H as [[_ H]|H].
-  - exists q. split; [left; reflexivity|exact H].
-  - destruct (IH _ H) as (y & Hy & Hl). exists y. split; [right; exact Hy|exact Hl].
-Qed.
-
-Lemma avail_char ts ss qs m : Forall (fun q => m <= len q) qs -> attained m ts qs ->
-  qr_available (mkQr ts ss qs) = m.
-Proof.
-  intros Hall Hatt. destruct (attained_In _ _ _ Hatt) as (y & Hy & Hl).
-  pose proof (avail_le (mkQr ts ss qs) y Hy) as H1.
-  assert (H2 : m <= qr_available (mkQr ts ss qs)).
-  { apply avail_ge; cbn [q_queues].
-    - intros ->. destruct Hy.
-    - rewrite Forall_forall in Hall. exact Hall. }
-  lia.
-Qed.
-
-Lemma ge_all a ts qs : sized_ge a ts qs -> zero_ge a ts qs -> Forall (fun q => a <= len q) qs.
-Proof.
-  unfold sized_ge, zero_ge. intros H1. induction H1 as [|t q ts qs Hs H1 IH]; intros H2; [constructor|].
-  inversion H2 as [|? ? ? ? Hz H2']; subst. constructor; [|apply IH; exact H2'].
-  destruct (sized t); auto.
+  intros Hok Hlen Hex. unfold qr_available. cbn [q_proto q_queues].
+  pose proof (avail_sized_spec ts qs None Hok Hlen) as H.
+  destruct (avail_sized ts qs None) as [m|].
+  - destruct H as (Hge & _ & [Hor|Hor]); [discriminate|]. split; assumption.
+  - exfalso. destruct H as [_ HF]. clear - Hex HF.
+    induction HF as [|t ts Ht HF IH]; cbn [existsb] in Hex; [discriminate|].
+    rewrite Ht in Hex. apply IH. exact Hex.
 Qed.
 
 (** * Popping one point *)
 
 Lemma inv5_pop sh k : forall ts cs fs ss qs, inv5 sh k ts cs fs ss qs ->
-  Forall (fun c => (k < length c)%nat) cs -> Forall (fun q => q <> []) qs ->
-  exists vs qs', pop_fronts qs = Ok (vs, qs') /\ inv5 sh (S k) ts cs fs ss qs' /\
-    Forall2 (fun c v => v = nth k c (VInteger 0)) cs vs /\
-    Forall2 (fun q q' => len q = 1 + len q') qs qs'.
+  Forall (fun c => (k < length c)%nat) cs ->
+  Forall2 (fun t q => sized t = true -> q <> []) ts qs ->
+  exists vs qs', pop_fronts ts qs = Ok (vs, qs') /\ inv5 sh (S k) ts cs fs ss qs' /\
+    Forall2 (fun c v => v = nth k c (VInteger 0)) cs vs.
 Proof.
   induction 1 as [|t c f s q ts cs fs ss qs Hr Hi IH]; intros Hk Hne.
-  - exists [], []. split; [reflexivity|]. split; [constructor|]. split; constructor.
-  - inversion Hk as [|? ? Hk0 Hk']; subst. inversion Hne as [|? ? Hq0 Hne']; subst.
-    destruct q as [|v q]; [congruence|].
-    destruct (rec_pop _ _ _ _ _ _ _ _ (VInteger 0) Hr Hk0) as [Hv Hr'].
-    destruct (IH Hk' Hne') as (vs & qs' & Hp & Hi' & HF1 & HF2).
-    exists (v :: vs), (q :: qs'). cbn [pop_fronts]. rewrite Hp.
-    split; [reflexivity|]. split; [constructor; assumption|].
-    split; constructor; try assumption. apply qlen_cons.
-Qed.
-
-Lemma attained_pop m : forall ts qs qs', attained m ts qs ->
-  Forall2 (fun q q' => len q = 1 + len q') qs qs' -> attained (m - 1) ts qs'.
-Proof.
-  induction ts as [|t ts IH]; intros qs qs' H HF; [destruct H|].
-  destruct qs as [|q qs]; [destruct H|]. inversion HF as [|? q' ? qs'' Hq HF']; subst.
-  cbn [attained] in *. destruct H as [[H1 H2]|H].
-  - left. split; [exact H1|lia].
-  - right. apply (IH _ _ H HF').
+  - exists [], []. split; [reflexivity|]. split; constructor.
+  - inversion Hk as [|? ? Hk0 Hk']; subst. inversion Hne as [|? ? ? ? Hq0 Hne']; subst.
+    pose proof Hr as (Ht & _).
+    destruct (IH Hk' Hne') as (vs & qs' & Hp & Hi' & HF1).
+    rewrite pop_fronts_cons. destruct (sized t) eqn:Hs.
+    + destruct q as [|v q]; [specialize (Hq0 eq_refl); congruence|].
+      destruct (rec_pop _ _ _ _ _ _ _ _ (VInteger 0) Hr Hs Hk0) as [Hv Hr'].
+      exists (v :: vs), (q :: qs'). rewrite (pop_one_sized t v q Ht Hs), Hp.
+      split; [reflexivity|]. split; constructor; assumption.
+    + destruct (rec_pop_zero _ _ _ _ _ _ _ (VInteger 0) Hr Hs Hk0) as [Hv Hr'].
+      exists (zval t :: vs), (q :: qs'). rewrite (pop_one_zero t q Ht Hs), Hp.
+      split; [reflexivity|]. split; constructor; assumption.
 Qed.
 
 (** * Progress: with nothing more to come, the sized queues still hold the
@@ -471,4 +455,12 @@ Proof.
   destruct qs as [|q qs]; [destruct H|]. inversion HF as [|? ? ? ? Hq HF']; subst.
   cbn [attained] in H. destruct H as [[H1 H2]|H]; [|apply (IH _ H HF')].
   specialize (Hq H1). intros ->. apply qlen_0_nil in H2. congruence.
+Qed.
+
+(** [1 <= available]: every queue of a record of non-zero width is non-empty. *)
+Lemma sized_ge_nonempty ts qs : sized_ge 1 ts qs ->
+  Forall2 (fun t q => sized t = true -> q <> []) ts qs.
+Proof.
+  unfold sized_ge. apply Forall2_impl_. intros t q H Hs ->. specialize (H Hs).
+  rewrite qlen_nil in H. lia.
 Qed.
